@@ -169,6 +169,6 @@ def replay(rec):
         q = case.get("query") or {}
         if q.get("k") == "time":
             print("time_at ->", float(eng.time_at(tc.beat_of(q["b"]), tc.tag_enum(q["tag"]))))
-        for st in eng._state_machine:
+        for st in getattr(eng, "_state_machine", []):
             print("  ", st)
     return 1
